@@ -278,6 +278,27 @@ def _try_except(ctx, rep, cl, av):
             break
     ok = ok and found > 0
     rep.ob(cl + ".decrypt-guarded", fn.name, ok, "juniper_decrypt(value) is wrapped in try/except ValueError that does not re-raise (malformed $9$ strings fall back to plain handling)", W(fn), key=cl + ".decrypt-guarded|_anonymize_value")
+    # ... and it is attempted for EVERY value that carries the marker: a path that tests the marker but does not decrypt must have found it absent
+    # (a further condition on the decryption - an empty lookup, a flag - keys the same secret differently depending on history)
+    n_skip = 0
+    for path in av.paths:
+        if not path.feasible():
+            continue
+        if any(M.callee_name(e.a) == "juniper_decrypt" and e.a[2] and e.a[2][0] == av.V for e, ls in path.calls()):
+            continue
+        if any(isinstance(t, tuple) and t[0] == "except" and pol for t, pol, _ in path.conds):
+            continue  # the guarded attempt was made and refused (ValueError handler)
+        tests = [x for t, pol, _ in path.conds for x in subterms(t) if M.is_call(x) and x[1] == ("attr", av.V, "startswith") and not x[3]]
+        for sw in tests[:1]:
+            if path.possible({sw: True}) is not False:
+                n_skip += 1
+                rep.fail(cl + ".decrypt-whenever-marked", fn.name, "a value that starts with the $9$ marker is not decrypted on the path %s: whether the plaintext or the ciphertext keys the lookup then depends on more than the value" % path.describe()[:160], W(fn),
+                         key=cl + ".decrypt-whenever-marked|_anonymize_value")
+                break
+        if n_skip:
+            break
+    if not n_skip:
+        rep.ob(cl + ".decrypt-whenever-marked", fn.name, True, "every path that tests the $9$ marker and does not decrypt has the marker absent", W(fn), nontrivial=False)
     # the raw decrypt call outside a try (the stored juniper_decrypt(anon_val)) is on pseudonyms only
     for path in av.paths:
         for e, ls in path.calls():
